@@ -20,10 +20,12 @@ oracle: what the edit script says must be reported / what the two specs say (nev
 Nothing here reads the extractor's report: the table is asked from the driver (`["cfg"]`), i.e. from the Generated file the
 theorems were checked against in this run (the baseline one after a translator fallback).
 """
+import ast as _ast
 import copy
 import itertools
 import json
 import os
+import pickle
 
 from core import LeanDriver, err_kind, canon, CORPUS_DIR
 from gen import diffcfg
@@ -102,6 +104,7 @@ RULE = ("node / service / interface sliver trees (<=4 components of every Compon
 
 FLAG_NAMES = ["LABELS", "CAPACITIES", "USER_DATA", "SUB_INTERFACES"]
 
+
 # ---------------------------------------------------------------------------------------------
 # value pools.  A property value in a spec is None or ["L"|"C"|"U", payload].
 
@@ -122,9 +125,45 @@ def canon_caps(d):
     return None if d is None else "C" + canon({k: v for k, v in d.items() if v not in (None, 0)})
 
 
-def canon_ud(t):
-    return None if t is None else "U" + json.dumps(json.loads(t), sort_keys=True)
+# user data handed over as a Python OBJECT (the other construction path of JSONData): {"py": "<python literal>"}.  Non-string keys
+# (int / float / bool) become strings in the stored text, tuples become arrays; int keys sort numerically as objects and
+# lexicographically as text (2 < 10 but "10" < "2"), so equal documents built through different paths are the interesting pairs.
+UD_OBJ = ["{2: 'slot-b', 10: 'slot-k'}", "{'queues': {1: 'mgmt', 2: 'data0', 10: 'data1', 11: 'data2'}}", "{9: 'rx', 10: 'tx'}",
+          "{'vlans': {100: 'storage', 20: 'control', 3: 'oob'}}", "{1: 'a', 2: 'b', 3: 'c'}", "{7: 'only'}", "{1.5: 'a', 10.0: 'b', 2.25: 'c'}",
+          "{'t': (1, 2, (3, 4))}", "{'a': [{3: 1, 20: 2, 100: 3}]}", "{True: 'yes', False: 'no'}", "(1, 'x', {5: None, 40: None})",
+          "{-1: 'm', -10: 'n', 5: 'p'}"]
+# mixed key types on one level (only sortable after they went through JSON): value stream only
+UD_OBJ_MIXED = ["{2: 'x', 'a': 'y', 10: 'z'}", "{None: 1, 2: 3}", "{1: 'a', '1': 'b'}", "{True: 'x', 'k': 1, 3: 2}", "{'k': {1: 1, 'z': 2, 1.5: 3}}"]
 
+
+def ud_obj(v):
+    return _ast.literal_eval(v["py"])
+
+
+def ud_text(v):
+    """the JSON text a user-data spec value stands for (what JSONData stores)"""
+    return v if isinstance(v, str) else json.dumps(ud_obj(v))
+
+
+def ud_paths(lit):
+    """one value through every construction path: the object, the text JSONData writes for it, that text sorted and compact, and
+    the string-keyed object a JSON round trip of it gives"""
+    o = _ast.literal_eval(lit)
+    t = json.dumps(o)
+    return [{"py": lit}, t, json.dumps(json.loads(t), sort_keys=True, separators=(",", ":")), {"py": repr(json.loads(t))}]
+
+
+def mk_ud(v):
+    r = R.load()
+    return r.UserData(v) if isinstance(v, str) else r.UserData(ud_obj(v))
+
+
+def canon_ud(t):
+    return None if t is None else "U" + json.dumps(json.loads(ud_text(t)), sort_keys=True)
+
+
+# what the sliver generators draw user data from: the texts plus every construction path of the object values
+UD_SLIVER_POOL = UD_POOL + [v for lit in UD_OBJ for v in ud_paths(lit)]
 
 # ---------------------------------------------------------------------------------------------
 # building real slivers from specs, reading specs back from real slivers
@@ -160,7 +199,7 @@ def mk_props(sl, p):
     if cap is not None:
         sl.set_capacities(r.Capacities(**cap))
     if ud is not None:
-        sl.set_user_data(r.UserData(ud))
+        sl.set_user_data(mk_ud(ud))
 
 
 def mk_iface(s):
@@ -168,6 +207,7 @@ def mk_iface(s):
     i = r.InterfaceSliver()
     i.set_name(s["n"])
     i.set_type(r.InterfaceType[s.get("t", "SubInterface")])
+    i.node_id = s.get("id")
     mk_props(i, s["p"])
     if s.get("subs") is not None:
         i.interface_info = r.InterfaceInfo()
@@ -181,6 +221,7 @@ def mk_svc(s):
     v = r.NetworkServiceSliver()
     v.set_name(s["n"])
     v.set_type(r.ServiceType[s.get("t", "OVS")])
+    v.node_id = s.get("id")
     mk_props(v, s["p"])
     if s.get("ifs") is not None:
         v.interface_info = r.InterfaceInfo()
@@ -194,6 +235,7 @@ def mk_comp(s):
     c = r.ComponentSliver()
     c.set_name(s["n"])
     c.set_type(r.ComponentType[s["t"]])
+    c.node_id = s.get("id")
     mk_props(c, s["p"])
     if s.get("svcs") is not None:
         c.network_service_info = r.NetworkServiceInfo()
@@ -207,6 +249,7 @@ def mk_node(s):
     n = r.NodeSliver()
     n.set_name(s["n"])
     n.set_type(r.NodeType.VM)
+    n.node_id = s.get("id")
     mk_props(n, s["p"])
     if s.get("comps") is not None:
         n.attached_components_info = r.AttachedComponentsInfo()
@@ -305,11 +348,11 @@ def apply_pe(a, b, pe):
         b.set_capacities(None if v is None else r.Capacities(**v))
     if "ud" in pe:
         v = pe["ud"][0]
-        b.set_user_data(None if v is None else r.UserData(v))
+        b.set_user_data(None if v is None else mk_ud(v))
     if "ud_both" in pe:
         ta, tb = pe["ud_both"]
-        a.set_user_data(r.UserData(ta))
-        b.set_user_data(r.UserData(tb))
+        a.set_user_data(mk_ud(ta))
+        b.set_user_data(mk_ud(tb))
 
 
 def apply_iface(a, b, sc):
@@ -645,7 +688,7 @@ def pair_node(a, b, mask):
 
 def kind_collisions(kind, ta, tb):
     """names of components present on both sides of a pair of nodes with different types"""
-    if kind not in ("node", "topo"):
+    if kind != "node":
         return []
     da, db = by_name(ta.get("comps")), by_name(tb.get("comps"))
     return sorted(k for k in set(da) & set(db) if da[k].get("t") != db[k].get("t"))
@@ -654,12 +697,12 @@ def kind_collisions(kind, ta, tb):
 def pair_trees(case, a=None, b=None):
     """the two sides of a pair as canonical trees: from the specs, or (library-built slivers) read back from the objects"""
     if case["kind"] == "topo":
-        return wire_node(a), wire_node(b)
+        return WIRE[eff_kind(case)](a), WIRE[eff_kind(case)](b)
     return canon_tree(case["pair"][0]), canon_tree(case["pair"][1])
 
 
 def expected_pair(kind, ta, tb, mask):
-    e = pair_node(ta, tb, mask) if kind in ("node", "topo") else pair_svc(ta, tb, mask) if kind == "svc" else pair_iface(ta, tb)
+    e = pair_node(ta, tb, mask) if kind == "node" else pair_svc(ta, tb, mask) if kind == "svc" else pair_iface(ta, tb)
     return e if nonempty(e) else None
 
 
@@ -681,8 +724,8 @@ def apply_mask(exp, obs, mask):
 
 
 def expected(case, hidden):
-    k = case["kind"]
-    if k == "topo":
+    k = eff_kind(case)
+    if case["kind"] == "topo":
         return expected_pair(k, *pair_trees(case, *build_pair(case)), set())
     if "pair" in case:
         return expected_pair(k, *pair_trees(case), set())
@@ -730,7 +773,8 @@ def compare(exp, obs):
 def check_case(case, res):
     """the property itself on the implementation; returns number of violations added"""
     n0 = len(res.violations) + sum(v.get("count", 1) - 1 for v in res.violations)
-    meth = METHOD[case["kind"]]
+    ek = eff_kind(case)
+    meth = METHOD[ek]
 
     def bad(sig, what, **kw):
         res.violation("C17:%s:%s" % (meth, sig), what, case, **kw)
@@ -751,17 +795,17 @@ def check_case(case, res):
                 for c in t.get("comps") or []:
                     if c["t"] == "SmartNIC" and not c["svcs"]:
                         bad("hypothesis:smartnic-without-service", "a deep sliver built from a topology has a SmartNIC without a network service")
-        exp = expected_pair(case["kind"], ta, tb, mask)
+        exp = expected_pair(ek, ta, tb, mask)
         if fwd[0] == "ok":
             exp = apply_mask(exp, fwd[1], mask)
     else:
         exp = expected(case, hidden)
     if fwd[0] == "err" or bwd[0] == "err":
         kind = fwd[1] if fwd[0] == "err" else bwd[1]
-        if is_pair and kind_collisions(case["kind"], ta, tb):
+        if is_pair and kind_collisions(ek, ta, tb):
             # a component that is a SmartNIC on one side and something else without a network service on the other
             bad("kind-collision:raises:" + kind, "diff raised: a component has the same name but another type on the other side "
-                "(%s)" % ", ".join(kind_collisions(case["kind"], ta, tb)), observed=[fwd, bwd])
+                "(%s)" % ", ".join(kind_collisions(ek, ta, tb)), observed=[fwd, bwd])
         else:
             bad("raises:" + kind, "diff raised on well-formed slivers", observed=[fwd, bwd])
         return 1
@@ -822,7 +866,7 @@ def ids_below(s):
 def g_props(rng, dense=0.5):
     return [rng.choice(LABEL_POOL) if rng.random() < dense else None,
             rng.choice(CAP_POOL) if rng.random() < dense else None,
-            rng.choice(UD_POOL) if rng.random() < dense else None]
+            rng.choice(UD_SLIVER_POOL if rng.random() < 0.4 else UD_POOL) if rng.random() < dense else None]
 
 
 def g_leaf(rng, name):
@@ -881,11 +925,12 @@ def g_pe(rng, old, p=0.35):
         pe["caps"] = [old[1] if rng.random() < 0.15 else rng.choice(CAP_POOL)]
     r = rng.random()
     if r < p:
-        pe["ud"] = [old[2] if rng.random() < 0.15 else rng.choice(UD_POOL)]
+        pe["ud"] = [old[2] if rng.random() < 0.15 else rng.choice(UD_SLIVER_POOL if rng.random() < 0.4 else UD_POOL)]
     elif r < p + 0.15:
-        ta = rng.choice(UD_POOL[1:])
-        same = [t for t in UD_POOL[1:] if canon_ud(t) == canon_ud(ta)]
-        pe["ud_both"] = [ta, rng.choice(same) if rng.random() < 0.8 else rng.choice(UD_POOL[1:])]
+        pool = UD_SLIVER_POOL[len(UD_POOL):] if rng.random() < 0.5 else UD_POOL[1:]       # half of them: object-built values
+        ta = rng.choice(pool)
+        same = [t for t in UD_SLIVER_POOL[1:] if canon_ud(t) == canon_ud(ta)]
+        pe["ud_both"] = [ta, rng.choice(same) if rng.random() < 0.8 else rng.choice(pool)]
     return pe
 
 
@@ -991,6 +1036,11 @@ def corner_cases():
         {"comp": {"nic1": {"svc": {"iface": {"p1": {"sub": {"p1.1": {"labels": [{"vlan": "200"}]}}}}}}}},
         {"comp": {"nic1": {"svc": {"iface": {"p2": {"add": [leaf("p2.1")]}}}}}},
     ]
+    for lit in UD_OBJ:
+        ps = ud_paths(lit)
+        for x, y in ((ps[0], ps[1]), (ps[1], ps[0]), (ps[0], ps[3]), (ps[3], ps[2])):
+            one.append({"pe": {"ud_both": [x, y]}, "comp": {"gpu1": {"pe": {"ud_both": [y, x]}}}, "svc": {"ns1": {"pe": {"ud_both": [x, y]}}}})
+    one.append({"pe": {"ud": [{"py": UD_OBJ[0]}]}})
     for sc in one:
         cs.append({"kind": "node", "tree": full, "script": sc})
     nic = full["comps"][0]["svcs"][0]
@@ -1038,8 +1088,40 @@ def gen_cases(rng, n, hidden_ok=False):
             c = {"kind": "iface", "tree": t, "script": g_iface_script(rng, t, rng.choice([0.2, 0.4, 0.7]))}
         if rng.random() < 0.08:
             c["script"] = {}
+        if rng.random() < 0.5:
+            assign_ids(c["tree"], lambda p: "id:" + p)
         out.append(c)
     return out
+
+
+def assign_ids(t, f, path=""):
+    """give every sliver of a spec tree the node_id f(path of names)"""
+    if isinstance(t, list):
+        for x in t:
+            assign_ids(x, f, path)
+    elif isinstance(t, dict) and "n" in t:
+        here = path + "/" + t["n"]
+        t["id"] = f(here)
+        for k in ("comps", "svcs", "ifs", "subs"):
+            if t.get(k):
+                assign_ids(t[k], f, here)
+    return t
+
+
+def id_pair(rng, a, b):
+    """node_ids of the two sides of a pair: none at all / every sliver its own on either side (two independently created
+    slivers: what remove + add under the old name gives) / the same id under the same path with some children of the new side
+    re-created (fresh id)"""
+    mode = rng.choice(["none", "independent", "independent", "path", "recreated", "recreated"])
+    if mode == "none":
+        return mode
+    if mode == "independent":
+        assign_ids(a, lambda p: "A:" + p)
+        assign_ids(b, lambda p: "B:" + p)
+    else:
+        assign_ids(a, lambda p: "id:" + p)
+        assign_ids(b, (lambda p: "id:" + p) if mode == "path" else (lambda p: ("new:" if rng.random() < 0.4 else "id:") + p))
+    return mode
 
 
 def gen_pairs(rng, n):
@@ -1055,16 +1137,19 @@ def gen_pairs(rng, n):
                 # make the overlap likely: copy some children and perturb them
                 b["comps"] = [perturb_comp(rng, c) for c in a["comps"] if rng.random() < 0.8] + \
                              [c for c in (b["comps"] or []) if c["n"] not in {x["n"] for x in a["comps"]}]
+            id_pair(rng, a, b)
             out.append({"kind": "node", "pair": [a, b]})
         elif r < 0.8:
             nm = "s%d" % rng.randrange(2)
             a, b = g_svc(rng, nm, dedicated_bias=True), g_svc(rng, nm, dedicated_bias=True)
             if rng.random() < 0.5 and a["ifs"]:
                 b["ifs"] = [perturb_iface(rng, x) for x in a["ifs"] if rng.random() < 0.8]
+            id_pair(rng, a, b)
             out.append({"kind": "svc", "pair": [a, b]})
         else:
             nm = "i%d" % rng.randrange(2)
             a, b = g_iface(rng, nm, "DedicatedPort"), g_iface(rng, nm, "DedicatedPort")
+            id_pair(rng, a, b)
             out.append({"kind": "iface", "pair": [a, b]})
     return out
 
@@ -1136,6 +1221,24 @@ def corner_pairs():
     out.append({"kind": "node", "pair": [node([comp("g1", "GPU", None, L)]), node([comp("g2", "GPU", None, L)])]})
     out.append({"kind": "svc", "pair": [svc("ss", [ifc("p1", "DedicatedPort", [leaf("xx")])]), svc("ss", [ifc("p2", "DedicatedPort", [leaf("xx")])])]})
     out.append({"kind": "node", "pair": [node(None, None, L), dict(node(None, None, L), n="n2")]})
+    # a child removed and created again under its old name (fresh node_id), with and without changed properties / children, at every
+    # level: component, node-level service, interface of a service, sub-interface of a port (C17-r4-1) - it is present in both
+    C1, C2 = [None, {"unit": 1}, None], [None, {"unit": 2}, None]
+    L2 = [{"vlan": "101"}, None, None]
+    wid = lambda t, i: dict(t, id=i)
+    for pa, pb in ((C1, C2), (C1, C1)):
+        out.append({"kind": "node", "pair": [dict(node([wid(comp("gpu1", "GPU", None, pa), "c-1")], [wid(svc("svc1", [], pa), "s-1")]), id="N1"),
+                                             dict(node([wid(comp("gpu1", "GPU", None, pb), "c-2")], [wid(svc("svc1", [], pb), "s-2")]), id="N1")]})
+    for pa, pb in ((L, L2), (L, L)):
+        out.append({"kind": "svc", "pair": [wid(svc("svc1", [wid(ifc("p1", "SharedPort", None, pa), "i-1")]), "s-1"),
+                                            wid(svc("svc1", [wid(ifc("p1", "SharedPort", None, pb), "i-2")]), "s-1")]})
+        out.append({"kind": "iface", "pair": [wid(ifc("p1", "DedicatedPort", [wid(leaf("p1.1", pa), "ch-1")]), "i-1"),
+                                              wid(ifc("p1", "DedicatedPort", [wid(leaf("p1.1", pb), "ch-2")]), "i-1")]})
+        out.append({"kind": "svc", "pair": [wid(svc("svc1", [wid(ifc("p1", "DedicatedPort", [wid(leaf("p1.1", pa), "ch-1")]), "i-1")]), "s-1"),
+                                            wid(svc("svc1", [wid(ifc("p1", "DedicatedPort", [wid(leaf("p1.1", pb), "ch-2")]), "i-1")]), "s-1")]})
+        out.append({"kind": "node", "pair": [
+            dict(node([wid(comp("nic1", "SmartNIC", [wid(svc("nic1-ns", [wid(ifc("p1", "DedicatedPort", [wid(leaf("p1.1", pa), "ch-1")]), "i-1")]), "s-1")]), "c-1")]), id="N1"),
+            dict(node([wid(comp("nic1", "SmartNIC", [wid(svc("nic1-ns", [wid(ifc("p1", "DedicatedPort", [wid(leaf("p1.1", pb), "ch-2")]), "i-2")]), "s-2")]), "c-2")]), id="N1")]})
     return out
 
 
@@ -1160,7 +1263,7 @@ def topo_pe(target, pe):
     if "caps" in pe:
         kw["capacities"] = r.Capacities(**pe["caps"][0])
     if "ud" in pe:
-        kw["user_data"] = r.UserData(pe["ud"][0])
+        kw["user_data"] = mk_ud(pe["ud"][0])
     if kw:
         target.set_properties(**kw)
 
@@ -1184,6 +1287,20 @@ def topo_apply(t, n, op):
         n.remove_network_service(op[1])
     elif k == "ns_props":
         topo_pe(n.network_services[op[1]], op[2])
+    elif k == "br_new":
+        # a topology-level L2Bridge; its first port goes to a second node so that the ports of n1 can come and go
+        n2 = t.add_node(name="n2", site="RENC")
+        peer = n2.add_component(name="peer", model_type=ComponentModelType.SharedNIC_ConnectX_6)
+        t.add_network_service(name=op[1], nstype=ServiceType.L2Bridge, interfaces=[peer.interface_list[0]])
+    elif k == "br_con":
+        t.network_services[op[1]].connect_interface(n.components[op[2]].interface_list[op[3]])
+    elif k == "br_dis":
+        t.network_services[op[1]].disconnect_interface(n.components[op[2]].interface_list[op[3]])
+    elif k == "br_props":
+        topo_pe(t.network_services[op[1]], op[2])
+    elif k == "br_port_props":
+        want = "%s-%s" % (n.name, n.components[op[2]].interface_list[op[3]].name)
+        topo_pe([i for i in t.network_services[op[1]].interface_list if i.name == want][0], op[4])
     else:
         port = n.components[op[1]].interface_list[op[2]]
         if k == "port_props":
@@ -1199,6 +1316,48 @@ def topo_apply(t, n, op):
             raise ValueError("unknown topology op %r" % (op,))
 
 
+def topo_view(t, n, view):
+    """the library-built deep sliver a topology case compares: the node (default), the network service of one of its components
+    (NetworkServiceSliver.diff), one of a component's ports (InterfaceSliver.diff), a topology-level bridge"""
+    gm = t.graph_model
+    if not view or view[0] == "node":
+        return gm.build_deep_node_sliver(node_id=n.node_id)
+    if view[0] == "comp_svc":
+        return first_svc(gm.build_deep_component_sliver(node_id=n.components[view[1]].node_id))
+    if view[0] == "port":
+        return gm.build_deep_interface_sliver(node_id=n.components[view[1]].interface_list[view[2]].node_id)
+    if view[0] == "bridge":
+        return gm.build_deep_ns_sliver(node_id=t.network_services[view[1]].node_id)
+    raise ValueError("unknown view %r" % (view,))
+
+
+def eff_kind(case):
+    """which of the three diff methods a case exercises"""
+    if case["kind"] != "topo":
+        return case["kind"]
+    v = (case.get("view") or ["node"])[0]
+    return {"node": "node", "comp_svc": "svc", "bridge": "svc", "port": "iface"}[v]
+
+
+def topo_readds(case):
+    """levels at which the edits after the first snapshot remove an element and add it again under its old name"""
+    out, gone = set(), set()
+    for op in case["ops"]:
+        if op[0] in ("rm_comp", "rm_ns"):
+            gone.add((op[0][3:], op[1]))
+        elif op[0] == "rm_sub":
+            gone.add(("sub", op[1], op[2], op[3]))
+        elif op[0] == "br_dis":
+            gone.add(("port", op[1], op[2], op[3]))
+        elif op[0] in ("add_comp", "add_ns") and (op[0][4:], op[1]) in gone:
+            out.add(op[0][4:])
+        elif op[0] == "add_sub" and ("sub", op[1], op[2], op[3]) in gone:
+            out.add("sub")
+        elif op[0] == "br_con" and ("port", op[1], op[2], op[3]) in gone:
+            out.add("port")
+    return sorted(out)
+
+
 def topo_build(case):
     from fim.user.topology import ExperimentTopology
     t = ExperimentTopology()
@@ -1206,10 +1365,10 @@ def topo_build(case):
         n = t.add_node(name="n1", site="RENC")
         for op in case["init"]:
             topo_apply(t, n, op)
-        a = t.graph_model.build_deep_node_sliver(node_id=n.node_id)
+        a = topo_view(t, n, case.get("view"))
         for op in case["ops"]:
             topo_apply(t, n, op)
-        b = t.graph_model.build_deep_node_sliver(node_id=n.node_id)
+        b = topo_view(t, n, case.get("view"))
         return a, b
     finally:
         try:
@@ -1232,10 +1391,12 @@ def g_topo_ops(rng, state, k, vl):
         if smart:
             choices += ["add_sub", "add_sub", "add_sub"]
             if any(s for c in smart for s in state["comps"][c]["subs"].values()):
-                choices += ["rm_sub", "sub_props", "sub_props"]
+                choices += ["rm_sub", "sub_props", "sub_props", "readd_sub", "readd_sub"]
         choices += ["add_ns"] if len(state["ns"]) < 2 else []
         if state["ns"]:
-            choices += ["rm_ns", "ns_props"]
+            choices += ["rm_ns", "ns_props", "readd_ns"]
+        if state["comps"]:
+            choices += ["readd_comp", "readd_comp"]
         k = rng.choice(choices)
         pe = {}
         while not pe:
@@ -1244,15 +1405,43 @@ def g_topo_ops(rng, state, k, vl):
             if rng.random() < 0.4:
                 pe["caps"] = [rng.choice(TOPO_CAPS)]
             if rng.random() < 0.4:
-                pe["ud"] = [rng.choice(UD_POOL[1:])]
+                pe["ud"] = [rng.choice(UD_SLIVER_POOL[1:] if rng.random() < 0.4 else UD_POOL[1:])]
         if k == "add_comp":
             name = "c%d" % state["n"]
             state["n"] += 1
             if state["gone"] and rng.random() < 0.3:
                 name = state["gone"].pop()           # a removed name comes back, perhaps as another kind
             model = rng.choice(TOPO_MODELS)
-            state["comps"][name] = {"model": model, "subs": {0: set(), 1: set()}}
+            state["comps"][name] = {"model": model, "subs": {0: {}, 1: {}}}
             ops.append(["add_comp", name, model])
+        elif k == "readd_comp":
+            # remove a component and add it again under its old name: the same model or another model of the same type, with or
+            # without new properties - a new element (fresh node_id, fresh service and ports) under an old key
+            name = rng.choice(sorted(state["comps"]))
+            old = state["comps"][name]["model"]
+            same_type = [m for m in TOPO_MODELS if m.split("_")[0] == old.split("_")[0]]
+            model = old if rng.random() < 0.5 else rng.choice(same_type)
+            state["comps"][name] = {"model": model, "subs": {0: {}, 1: {}}}
+            ops += [["rm_comp", name], ["add_comp", name, model]]
+            if rng.random() < 0.6:
+                ops.append(["comp_props", name, pe])
+        elif k == "readd_ns":
+            name = rng.choice(sorted(state["ns"]))
+            ops += [["rm_ns", name], ["add_ns", name]]
+            if rng.random() < 0.6:
+                ops.append(["ns_props", name, pe])
+        elif k == "readd_sub":
+            cands = [(c, i, s) for c in smart for i, ss in state["comps"][c]["subs"].items() for s in sorted(ss)]
+            c, i, s = rng.choice(cands)
+            vlan = state["comps"][c]["subs"][i][s]
+            if rng.random() < 0.6:
+                vl[0] += 1
+                vlan = str(vl[0])
+            state["comps"][c]["subs"][i][s] = vlan
+            ops += [["rm_sub", c, i, s], ["add_sub", c, i, s, vlan]]
+            pe.pop("labels", None)
+            if pe and rng.random() < 0.4:
+                ops.append(["sub_props", c, i, s, pe])
         elif k == "rm_comp":
             name = rng.choice(sorted(state["comps"]))
             del state["comps"][name]
@@ -1272,13 +1461,13 @@ def g_topo_ops(rng, state, k, vl):
             name = "sub%d" % state["n"]
             state["n"] += 1
             vl[0] += 1
-            state["comps"][c]["subs"][idx].add(name)
+            state["comps"][c]["subs"][idx][name] = str(vl[0])
             ops.append(["add_sub", c, idx, name, str(vl[0])])
         elif k in ("rm_sub", "sub_props"):
             cands = [(c, i, s) for c in smart for i, ss in state["comps"][c]["subs"].items() for s in sorted(ss)]
             c, i, s = rng.choice(cands)
             if k == "rm_sub":
-                state["comps"][c]["subs"][i].discard(s)
+                state["comps"][c]["subs"][i].pop(s, None)
                 ops.append(["rm_sub", c, i, s])
             else:
                 pe.pop("labels", None)               # vlan + local name stay
@@ -1303,10 +1492,66 @@ def gen_topo(rng, n):
     for _ in range(n):
         state = {"comps": {}, "ns": set(), "n": 0, "gone": []}
         vl = [100]
+        if rng.random() < 0.15:
+            out.append(g_topo_bridge(rng))
+            continue
         init = g_topo_ops(rng, state, rng.choice([1, 2, 3, 4, 6]), vl)
+        smart0 = {c for c, v in state["comps"].items() if v["model"].startswith("SmartNIC")}
         ops = g_topo_ops(rng, state, rng.choice([0, 1, 1, 2, 3, 5]), vl)
-        out.append({"kind": "topo", "init": init, "ops": ops})
+        case = {"kind": "topo", "init": init, "ops": ops}
+        # sometimes look at the service / a port of a SmartNIC that exists (under that name) at both snapshots
+        both = sorted(smart0 & {c for c, v in state["comps"].items() if v["model"].startswith("SmartNIC")})
+        if both and rng.random() < 0.35:
+            c = rng.choice(both)
+            case["view"] = ["comp_svc", c] if rng.random() < 0.5 else ["port", c, rng.choice([0, 1])]
+        out.append(case)
     return out
+
+
+def g_topo_bridge(rng):
+    """a topology-level L2Bridge whose ports on n1 are connected, disconnected and connected again (a new service port under the
+    old name), with property changes on the service and on its ports; the bridge's deep sliver before / after"""
+    nics = {"nicA": rng.choice(TOPO_MODELS[:4]), "nicB": rng.choice(TOPO_MODELS[:4])}
+    init = [["add_comp", k, m] for k, m in nics.items()] + [["br_new", "br1"]]
+    con = set()
+
+    def pe():
+        out = {}
+        while not out:
+            if rng.random() < 0.5:
+                out["caps"] = [rng.choice(TOPO_CAPS)]
+            if rng.random() < 0.3:
+                out["labels"] = [rng.choice([{"vlan": "100"}, {"vlan": "101"}])]
+            if rng.random() < 0.3:
+                out["ud"] = [rng.choice(UD_SLIVER_POOL[1:])]
+        return out
+
+    def some(k):
+        ops = []
+        for _ in range(k):
+            free = sorted({(c, i) for c in nics for i in (0, 1) if not (nics[c].startswith("SharedNIC") and i == 1)} - con)
+            ch = ["br_props"] + (["br_con"] * 2 if free else []) + (["br_dis", "readd", "readd", "br_port_props"] if con else [])
+            x = rng.choice(ch)
+            if x == "br_props":
+                ops.append(["br_props", "br1", pe()])
+            elif x == "br_con":
+                c, i = rng.choice(free)
+                con.add((c, i))
+                ops.append(["br_con", "br1", c, i])
+            else:
+                c, i = rng.choice(sorted(con))
+                if x == "br_dis":
+                    con.discard((c, i))
+                    ops.append(["br_dis", "br1", c, i])
+                elif x == "readd":
+                    ops += [["br_dis", "br1", c, i], ["br_con", "br1", c, i]]
+                    if rng.random() < 0.6:
+                        ops.append(["br_port_props", "br1", c, i, pe()])
+                else:
+                    ops.append(["br_port_props", "br1", c, i, pe()])
+        return ops
+    init += some(rng.choice([1, 2, 3]))
+    return {"kind": "topo", "init": init, "ops": some(rng.choice([1, 1, 2, 3])), "view": ["bridge", "br1"]}
 
 
 def corner_topo():
@@ -1324,7 +1569,35 @@ def corner_topo():
         {"kind": "topo", "init": [], "ops": [["add_ns", "ns1"]]},
         {"kind": "topo", "init": [["add_ns", "ns1"]], "ops": [["rm_ns", "ns1"], ["node_props", {"caps": [{"core": 2, "ram": 8}]}]]},
         {"kind": "topo", "init": [["add_comp", "nic1", "SharedNIC_ConnectX_6"]], "ops": [["comp_props", "nic1", {"ud": ['{"a": 1}']}]]},
-    ]
+    ] + corner_topo_readd()
+
+
+def corner_topo_readd():
+    """remove + add again under the old name through the user API (fresh node_id), with and without changed properties, at every
+    level and seen through every diff method (C17-r4-1)"""
+    T = lambda init, ops, view=None: dict({"kind": "topo", "init": init, "ops": ops}, **({"view": view} if view else {}))
+    nic = ["add_comp", "nic1", "SmartNIC_ConnectX_6"]
+    gpu = ["add_comp", "gpu1", "GPU_RTX6000"]
+    sub = ["add_sub", "nic1", 0, "sub1", "101"]
+    CP = {"caps": [{"unit": 1}], "labels": [{"bdf": "0000:41:00.0"}]}
+    out = []
+    for extra in ([], [["comp_props", "gpu1", CP]]):
+        out.append(T([nic, gpu], [["rm_comp", "gpu1"], ["add_comp", "gpu1", "GPU_Tesla_T4"]] + extra))
+        out.append(T([nic, gpu], [["rm_comp", "gpu1"], gpu] + extra))
+    for extra in ([], [["ns_props", "ns1", {"labels": [{"ipv4": "192.168.1.1"}]}]]):
+        out.append(T([["add_ns", "ns1"]], [["rm_ns", "ns1"], ["add_ns", "ns1"]] + extra))
+    for vlan in ("101", "102"):
+        for view in (None, ["comp_svc", "nic1"], ["port", "nic1", 0]):
+            out.append(T([nic, sub], [["rm_sub", "nic1", 0, "sub1"], ["add_sub", "nic1", 0, "sub1", vlan]], view))
+    # the SmartNIC itself re-created: its service and its ports are new elements under the old names
+    for extra in ([], [["port_props", "nic1", 0, {"caps": [{"bw": 10}]}]], [["add_sub", "nic1", 1, "sub9", "109"]]):
+        for view in (None, ["comp_svc", "nic1"], ["port", "nic1", 0], ["port", "nic1", 1]):
+            out.append(T([nic, sub], [["rm_comp", "nic1"], nic] + extra, view))
+    br = [nic, ["add_comp", "nic2", "SharedNIC_ConnectX_6"], ["br_new", "br1"], ["br_con", "br1", "nic1", 0], ["br_con", "br1", "nic2", 0]]
+    for extra in ([], [["br_port_props", "br1", "nic1", 0, {"caps": [{"bw": 10}]}]]):
+        out.append(T(br, [["br_dis", "br1", "nic1", 0], ["br_con", "br1", "nic1", 0]] + extra, ["bridge", "br1"]))
+    out.append(T(br, [["br_dis", "br1", "nic2", 0], ["br_props", "br1", {"labels": [{"vlan": "100"}]}]], ["bridge", "br1"]))
+    return out
 
 
 # ---------------------------------------------------------------------------------------------
@@ -1410,6 +1683,22 @@ def gen_values(rng, n):
     for a in upool:
         for b in upool:
             out.append(("U", None if a is None else r.UserData(a), None if b is None else r.UserData(b), True))
+    # one value through every construction path (an object with non-string keys / tuples, the JSON text the library writes for it,
+    # that text re-written, the string-keyed object, a deep copy and a pickle of the object-built instance): every pair of them must
+    # be equal, in every JSONData class (C17-r4-2: a canonical text cached per construction path)
+    from fim.slivers.json_data import LayoutData
+    lits = UD_OBJ + UD_OBJ_MIXED + [repr(g_pyobj(rng, 3)) for _ in range(max(4, n // 25))]
+    for lit in lits:
+        for cls in (r.UserData, MeasurementData, LayoutData):
+            insts = []
+            for path in VALUE_PATHS:
+                try:
+                    insts.append((path, build_path(cls, lit, path)))
+                except Exception as e:
+                    out.append(("UF", {"lit": lit, "cls": cls.__name__, "path": path, "err": err_kind(e)}, None, False))
+            for (pa, a), (pb, b) in itertools.product(insts, repeat=2):
+                if cls is r.UserData or "object" in (pa, pb):
+                    out.append(("U", a, b, True))
     out.append(("UX", r.UserData('{"a": 1}'), MeasurementData('{"a": 1}'), False))
     out.append(("UX", MeasurementData('{"a": 1}'), r.UserData('{"a":1}'), False))
     out.append(("UX", MeasurementData('{"a": 1}'), r.UserData('{"a": 2}'), False))
@@ -1434,6 +1723,89 @@ def gen_values(rng, n):
                 w = mutate_json(rng, w)
             out.append(("U", r.UserData(json.dumps(v)), r.UserData(json.dumps(w, separators=rng.choice([(",", ":"), (", ", ": ")]))), True))
     return out
+
+
+VALUE_PATHS = ["object", "text", "text-sorted", "text-shuffled", "string-keyed-object", "deepcopy-of-object", "pickle-of-object"]
+
+
+def build_path(cls, lit, path):
+    """an instance of the JSONData class `cls` holding the value of the Python literal `lit`, built the given way"""
+    o = _ast.literal_eval(lit)
+    if path == "object":
+        return cls(o)
+    if path == "text":
+        return cls(cls(o).json)                       # what a store / load cycle hands back
+    if path == "text-sorted":
+        return cls(json.dumps(json.loads(json.dumps(o)), sort_keys=True, separators=(",", ":")))
+    if path == "text-shuffled":
+        return cls(json.dumps(reverse_members(json.loads(json.dumps(o))), indent=1))
+    if path == "string-keyed-object":
+        return cls(json.loads(json.dumps(o)))
+    if path == "deepcopy-of-object":
+        return copy.deepcopy(cls(o))
+    if path == "pickle-of-object":
+        return pickle.loads(pickle.dumps(cls(o)))
+    raise ValueError(path)
+
+
+def reverse_members(v):
+    if isinstance(v, list):
+        return [reverse_members(x) for x in v]
+    if isinstance(v, dict):
+        return {k: reverse_members(v[k]) for k in reversed(list(v))}
+    return v
+
+
+def g_pyobj(rng, depth, top=True):
+    """a Python object json.dumps accepts but that is not a JSON value yet: int / float / bool keys (one type per dictionary, so that
+    the keys are sortable as they are), tuples"""
+    k = rng.random()
+    if top:
+        k = 0.3 + 0.7 * k            # a container: a bare str is taken as JSON text and a bare None as "no data" by the constructor
+    elif depth == 0 or k < 0.3:
+        return rng.choice([None, True, 0, 1, 2.5, "x", "10", "2"])
+    if k < 0.45:
+        return tuple(g_pyobj(rng, depth - 1, False) for _ in range(rng.randrange(0, 3)))
+    if k < 0.55:
+        return [g_pyobj(rng, depth - 1, False) for _ in range(rng.randrange(0, 3))]
+    keys = rng.choice([[1, 2, 3, 9, 10, 11, 20, 100, -1, -10], [1.5, 2.25, 10.0, 10.5, 100.0], ["a", "b", "10", "2", "k"], [True, False]])
+    return {kk: g_pyobj(rng, depth - 1, False) for kk in rng.sample(keys, rng.randrange(1, min(4, len(keys)) + 1))}
+
+
+def value_oracle(ctx, res):
+    """equal-valued user / measurement / layout data compare equal (and hash alike) whatever way the two instances were built"""
+    r = R.load()
+    rng = ctx.sub_rng("value-oracle")
+    lits = UD_OBJ + [repr(g_pyobj(rng, 3)) for _ in range(ctx.scale(40, 600))]
+    for lit in lits:
+        for cls in ("UserData", "MeasurementData", "LayoutData"):
+            res.evaluations += 1
+            res.count("kind:value")
+            check_value_case({"kind": "value", "lit": lit, "cls": cls}, res)
+            res.nontrivial.add(canon([lit, cls]))
+
+
+def check_value_case(case, res):
+    import fim.slivers.json_data as jd
+    cls = getattr(jd, case["cls"])
+    insts = []
+    for path in VALUE_PATHS:
+        try:
+            insts.append((path, build_path(cls, case["lit"], path)))
+        except Exception as e:
+            if len(json.dumps(_ast.literal_eval(case["lit"]))) <= cls.MAX_SIZE:
+                res.violation("C17:%s:construct:%s:%s" % (case["cls"], path, err_kind(e)),
+                              "%s cannot be built from a value json.dumps accepts (%s path)" % (case["cls"], path), case, observed=repr(e)[:200])
+    want = json.dumps(json.loads(json.dumps(_ast.literal_eval(case["lit"]))), sort_keys=True)
+    for (pa, a), (pb, b) in itertools.combinations(insts, 2):
+        try:
+            obs = [bool(a == b), bool(a != b), bool(b == a), hash(a) == hash(b)]
+        except Exception as e:
+            obs = ["err", err_kind(e)]
+        if obs != [True, False, True, True]:
+            res.violation("C17:%s.__eq__:equal-values-differ:%s-vs-%s" % (case["cls"], pa, pb),
+                          "two %s holding the same value (%s) built differently (%s / %s) do not compare equal" % (case["cls"], want[:80], pa, pb),
+                          case, expected=[True, False, True, True], observed=obs)
 
 
 def g_json(rng, depth):
@@ -1530,6 +1902,14 @@ def value_correspondence(ctx, res, n):
     cases = gen_values(rng, n)
     reqs, impl, canon_eq = [], [], []
     for tag, a, b, normal in cases:
+        if tag == "UF":
+            # the library refused to build an instance from a value json.dumps accepts: the model (which starts from the stored text)
+            # has such an instance
+            w = ["v", j_wire(json.loads(json.dumps(_ast.literal_eval(a["lit"]))))]
+            reqs.append(["veq", "U", w, w])
+            impl.append(["err", "construct:" + a["err"]])
+            canon_eq.append(None)
+            continue
         if tag in ("L", "C"):
             reqs.append(["veq", tag, fields_wire(a), fields_wire(b)])
             ca = None if a is None else (canon_labels if tag == "L" else canon_caps)(dict(a.__dict__))
@@ -1547,6 +1927,15 @@ def value_correspondence(ctx, res, n):
     for t in texts:
         u = r.UserData(t)
         reqs.append(["canon", "U", j_wire(json.loads(t))])
+        impl.append(["ok", j_wire(json.loads(u._canonical()))])
+        canon_eq.append(None)
+    # ... and of instances built from an object (what is stored is the text json.dumps writes for it)
+    for lit in UD_OBJ + UD_OBJ_MIXED + [repr(g_pyobj(rng, 3)) for _ in range(n // 20)]:
+        try:
+            u = r.UserData(_ast.literal_eval(lit))
+        except Exception:
+            continue                              # reported through the UF entries above
+        reqs.append(["canon", "U", j_wire(json.loads(u._data))])
         impl.append(["ok", j_wire(json.loads(u._canonical()))])
         canon_eq.append(None)
     model = LeanDriver("C17").run([json.dumps(q) for q in reqs])
@@ -1678,8 +2067,8 @@ W_SCRIPT = {"node": w_node_script, "svc": w_svc_script, "iface": w_iface_script}
 
 
 def request_of(case, a, b, rev=False):
-    w = WIRE[case["kind"]]
-    k = "node" if case["kind"] == "topo" else case["kind"]
+    k = eff_kind(case)
+    w = WIRE[k]
     return [k, w(b), w(a)] if rev else [k, w(a), w(b)]
 
 
@@ -1791,7 +2180,17 @@ def oracle(ctx, res, n=None):
             res.nontrivial.add(canon(c))
         if has_ud_both(c.get("script")):
             res.count("ud_both")
+        if '"py"' in canon(c):
+            res.count("user-data-built-from-object")
+        if c["kind"] == "topo":
+            res.count("topo-view:" + (c.get("view") or ["node"])[0])
+            for lv in topo_readds(c):
+                res.count("topo-readd:" + lv)
+        elif "pair" in c:
+            ids = [x.get("id") for x in c["pair"]]
+            res.count("pair-ids:" + ("none" if ids == [None, None] else "same-root" if ids[0] == ids[1] else "independent"))
         check_case(c, res)
+    value_oracle(ctx, res)
     res.sample({"case": cases[-1], "expected": expected(cases[-1], []), "observed": run_diff(*build_pair(cases[-1]), decode=True)})
 
 
@@ -1808,7 +2207,7 @@ def replay(ctx, payload):
     from core import Result
     R.load()
     r = Result()
-    check_case(payload["case"], r)
+    (check_value_case if payload["case"].get("kind") == "value" else check_case)(payload["case"], r)
     for v in r.violations:
         print("  ", v["signature"], v["what"])
     known = {k["signature"] for k in __import__("core").load_known(ID) if k.get("status") == "known"}
